@@ -68,7 +68,12 @@ def apply_rewrites(reply, rewrites, ctx):
                 label["community"] = b.hex()
         elif field == "version":
             # a well-formed message of another version
-            if label["version"] in (0, 1):
+            if isinstance(spec, str) and spec.startswith("alias"):
+                # the genuine version plus a multiple of 256 / 2^32: equal only after truncation
+                spec = label["version"] + {"alias256": 256, "alias-256": -256, "alias2^32": 2**32, "alias65536": 65536}[spec]
+                _set_int(tree, "version", spec)
+                label["version"] = spec
+            elif label["version"] in (0, 1):
                 _set_int(tree, "version", spec)
                 label["version"] = spec
         elif field == "msg-id":
